@@ -17,6 +17,7 @@ import (
 	"os"
 	"slices"
 	"strings"
+	"time"
 
 	"go.sia.tech/core/types"
 	rhp4 "go.sia.tech/coreutils/rhp/v4"
@@ -65,7 +66,15 @@ func (w *world) fullySigned(fc types.V2FileContract) bool {
 func (w *world) judge(c *vh.Case, o observation) {
 	tag := o.rpc + ":" + o.f.label()
 	committed := len(o.recorded) > 0
-	atFinal := (o.f.kind == "drop" || o.f.kind == "cancel" || o.f.kind == "corrupt") && o.f.pos == 3
+	atFinal := (o.f.kind == "drop" || o.f.kind == "cancel" || o.f.kind == "corrupt" || o.f.kind == "silent") && o.f.pos == 3
+	// every stream the client opens is bounded: by a deadline of at most the default stream
+	// timeout (2 minutes) if the context has none, else by the context
+	if o.dialed && !o.ctxHasDeadline && (!o.deadlineArmed || o.deadlineIn <= 0 || o.deadlineIn > 2*time.Minute+5*time.Second) {
+		c.Oracle("stream-deadline-not-armed:"+o.rpc, "%s: the context has no deadline and the client opened its stream without a deadline within the default stream timeout (armed=%v, in %v): a host that goes silent blocks the call forever", tag, o.deadlineArmed, o.deadlineIn)
+	}
+	if o.hung {
+		c.Oracle("renter-hangs-on-silent-host:"+o.rpc+":"+o.f.label(), "%s: the peer went silent and the clock passed every applicable timeout, but the call did not return: its reserved outputs stay reserved (they were only released after the harness closed the stream by force)", tag)
+	}
 	var hostFC types.V2FileContract
 	var hostID types.FileContractID
 	if committed {
@@ -195,6 +204,12 @@ func faultsFor(rpc string, rng *vh.RNG) []fault {
 	for _, c := range hcalls {
 		fs = append(fs, fault{kind: "hcall", name: c})
 	}
+	// the peer goes silent at message i (neither delivers nor closes); the renter must give up when
+	// its stream deadline (simulated clock) or its context deadline (60 ms, real; same-tip worlds only) has passed
+	for i := 0; i < 4; i++ {
+		fs = append(fs, fault{kind: "silent", pos: i, name: "no-ctx-deadline"})
+	}
+	fs = append(fs, fault{kind: "silent", pos: 1, name: "ctx-deadline"}, fault{kind: "silent", pos: 3, name: "ctx-deadline"})
 	// environment step, not a fault: the host's chain grows between its inputs and the renter's
 	// signatures (message 2 is held back while the blocks are mined)
 	fs = append(fs, fault{kind: "midmine", pos: 2, name: "1"}, fault{kind: "midmine", pos: 2, name: "pow2"})
@@ -232,7 +247,10 @@ func Run(r *vh.Run) {
 				})
 				for _, k := range order {
 					f := fs[k]
-					if cf.basis == basisFar && !(f.kind == "none" || f.kind == "dial" || (f.kind == "drop" && f.pos <= 2) || (f.kind == "cancel" && f.pos == 1) ||
+					if f.kind == "silent" && f.name == "ctx-deadline" && cf.basis != basisSame {
+						continue
+					}
+					if cf.basis == basisFar && !(f.kind == "none" || (f.kind == "silent" && f.pos == 1) || f.kind == "dial" || (f.kind == "drop" && f.pos <= 2) || (f.kind == "cancel" && f.pos == 1) ||
 						(f.kind == "hcall" && (f.name == "fund" || f.name == "updateinputs" || f.name == "element"))) {
 						continue // every attempt of this world costs 150 blocks: the faults around the host's funding
 					}
